@@ -41,9 +41,9 @@ func NewFrostMat(r *vk.Rand, ids []party.ID, t int, opt Opt) (*FrostMat, error) 
 	}
 	return &FrostMat{ids, t, c}, nil
 }
-func (m *FrostMat) Proto() string    { return "frost" }
-func (m *FrostMat) IDs() []party.ID  { return m.Ids }
-func (m *FrostMat) T() int           { return m.Th }
+func (m *FrostMat) Proto() string   { return "frost" }
+func (m *FrostMat) IDs() []party.ID { return m.Ids }
+func (m *FrostMat) T() int          { return m.Th }
 func (m *FrostMat) Shares() []Share {
 	var s []Share
 	for _, id := range m.Ids {
